@@ -199,7 +199,12 @@ hook_resolve = wrap(_resolve)
 def _potential(ix, driver, i, op, res):
     t = ix.t
     rows = []
-    for l in _rotated(ix, pool_of(ix, driver), i):
+    probe = list(_rotated(ix, pool_of(ix, driver), i))
+    if driver is not None and op is not None and op.get("op") in ("Clear", "ClearKeep", "Recreate", "Reopen"):
+        # the request has just (re)compiled the rules held in RAM: the LRUs of the universe that the rule family
+        # recognises only case-insensitively are asked too, whether or not a request has named them yet
+        probe += [l for l in driver.u.lrus if l != l.lower() and l not in probe][:6]
+    for l in probe:
         if driver is not None and not driver.family_ok([l]):
             continue
         p, e = guarded(lambda: t.get_potential_prefix(l))
